@@ -992,3 +992,17 @@ Proof.
   intros i o Hi. cbn [init ops] in Hi. apply nth_error_In, in_map_iff in Hi.
   destruct Hi as ([k c] & <- & _). unfold slot_ok. cbn. auto.
 Qed.
+
+(** ** Non-vacuity: a valid history reaching a state in which every clause of [Inv] is
+    exercised — operation 0 dropped while in flight with its cancellation queued, operation 1
+    in flight with a non-final completion posted, operation 2 with its submission queued. *)
+Example inv_state_reachable :
+  let es := [Poll 0 1%N; Poll 1 2%N; RingPoll; DropOp 0;
+             KPost 1 {| res := 3; more := true; notif := false |}; Poll 2 3%N] in
+  let s := fst (run step (init 4 [(Single, true); (Multi, false); (Single, true)]) es) in
+  valid (init 4 [(Single, true); (Multi, false); (Single, true)]) es
+  /\ sq s = [Cancel 0; Submit 2] /\ inflight s = [0; 1]
+  /\ cq s = [(Some 1, {| res := 3; more := true; notif := false |})]
+  /\ map st (ops s) = [Dropped; Running []; Running [default_cqe]]
+  /\ map freed (ops s) = [false; false; false].
+Proof. vm_compute. repeat split. Qed.
